@@ -9,7 +9,11 @@ use std::sync::atomic::{AtomicBool, AtomicU64, Ordering};
 use std::sync::Mutex;
 use std::time::{Duration, Instant};
 
-pub const VERIF_DIR: &str = "/verif";
+/// root of the verification tree; the registered commands never set VERIF_HOME, the scratch
+/// runner for seeded changes (tools/try_seed_scratch.sh) does
+pub fn verif_dir() -> String {
+    std::env::var("VERIF_HOME").unwrap_or_else(|_| "/verif".to_string())
+}
 pub const PARTITIONS: usize = 16;
 
 #[derive(Clone, Copy, Debug, PartialEq, Eq)]
@@ -124,7 +128,7 @@ pub struct KnownFinding {
 }
 
 pub fn load_known() -> Vec<KnownFinding> {
-    let path = Path::new(VERIF_DIR).join("known_findings.json");
+    let path = Path::new(&verif_dir()).join("known_findings.json");
     let text = match std::fs::read_to_string(&path) {
         Ok(t) => t,
         Err(_) => return Vec::new(),
@@ -195,7 +199,7 @@ pub fn explore(prop: &Prop, tier: Tier, seed: u64) -> Outcome {
     let mut failures: Vec<Failure> = Vec::new();
 
     // regression tier first
-    let reg_dir = Path::new(VERIF_DIR).join("regressions").join(prop.id);
+    let reg_dir = Path::new(&verif_dir()).join("regressions").join(prop.id);
     let mut reg_files: Vec<PathBuf> = std::fs::read_dir(&reg_dir)
         .map(|rd| rd.filter_map(|e| e.ok().map(|e| e.path())).collect())
         .unwrap_or_default();
@@ -406,7 +410,7 @@ pub fn explore(prop: &Prop, tier: Tier, seed: u64) -> Outcome {
 }
 
 pub fn write_replay(id: &str, sig: &str, bytes: &[u8], msg: &str, tier: Tier, seed: u64, extra: &Value) -> PathBuf {
-    let dir = Path::new(VERIF_DIR).join("replays").join(id);
+    let dir = Path::new(&verif_dir()).join("replays").join(id);
     let _ = std::fs::create_dir_all(&dir);
     let clean: String = sig
         .chars()
@@ -427,7 +431,7 @@ pub fn write_replay(id: &str, sig: &str, bytes: &[u8], msg: &str, tier: Tier, se
 }
 
 pub fn write_evidence(prop: &Prop, tier: Tier, seed: u64, out: &Outcome, violations: usize) {
-    let dir = Path::new(VERIF_DIR).join("evidence");
+    let dir = Path::new(&verif_dir()).join("evidence");
     let _ = std::fs::create_dir_all(&dir);
     let mut samples: Vec<Value> = Vec::new();
     let mut sample_bytes = out.stats.sample_bytes.clone();
@@ -579,7 +583,7 @@ fn fuzz_state() -> &'static Mutex<FuzzState> {
             .expect("unknown property id in VERIF_FUZZ_PROP");
         assert!(FUZZABLE.contains(&prop.id), "property {} is not fuzzed in-process", prop.id);
         let seed: u64 = std::env::var("VERIF_SEED").ok().and_then(|s| s.parse().ok()).unwrap_or(1);
-        let stats_path = PathBuf::from(std::env::var("VERIF_FUZZ_STATS").unwrap_or_else(|_| format!("{}/target/fuzz-stats-{}.json", VERIF_DIR, id)));
+        let stats_path = PathBuf::from(std::env::var("VERIF_FUZZ_STATS").unwrap_or_else(|_| format!("{}/target/fuzz-stats-{}.json", verif_dir(), id)));
         Mutex::new(FuzzState {
             prop,
             known: load_known(),
@@ -644,7 +648,7 @@ pub fn fuzz_one(data: &[u8]) {
 /// starting corpus for the fuzzer: the committed regression inputs plus generated byte strings
 pub fn emit_corpus(prop: &Prop, dir: &str, seed: u64, count: usize) {
     let _ = std::fs::create_dir_all(dir);
-    let reg_dir = Path::new(VERIF_DIR).join("regressions").join(prop.id);
+    let reg_dir = Path::new(&verif_dir()).join("regressions").join(prop.id);
     let mut n = 0;
     if let Ok(rd) = std::fs::read_dir(&reg_dir) {
         for e in rd.filter_map(|e| e.ok()) {
@@ -671,7 +675,7 @@ pub fn emit_corpus(prop: &Prop, dir: &str, seed: u64, count: usize) {
 /// fold the fuzzing stage into the evidence file the proptest stage wrote: `stats` are the
 /// per-process files written by `fuzz_one`, `logs` the libFuzzer logs
 pub fn merge_fuzz(id: &str, stats: &[String], logs: &[String], wall_s: f64, violations: u64) {
-    let path = Path::new(VERIF_DIR).join("evidence").join(format!("{}.json", id));
+    let path = Path::new(&verif_dir()).join("evidence").join(format!("{}.json", id));
     let mut ev: Value = serde_json::from_str(&std::fs::read_to_string(&path).expect("evidence of the proptest stage missing")).unwrap();
     let mut runs = 0u64;
     let mut nontrivial = 0u64;
